@@ -188,6 +188,57 @@ func buildLoaderSSA(c *Ctx, rule string) *loaderSSA {
 			}
 		}
 	}
+	// fallback, by role: the ancestor set is the set-like container (map to bool / struct{}, or a slice of paths)
+	// of the package that is tested, inserted into AND removed from (a stack discipline); the cycle error may be
+	// prepared before the test (`refusal := LoadError{Kind: cycle}; switch { case st.ancestors[p]: ... }`)
+	if ls.A == nil {
+		type ops struct{ test, ins, rem bool }
+		seen := map[any]*ops{}
+		var order []any
+		setLike := func(v ssa.Value) bool {
+			switch t := v.Type().Underlying().(type) {
+			case *types.Map:
+				return isSetElem(t.Elem())
+			case *types.Slice:
+				return types.TypeString(t.Elem(), nil) == "string"
+			}
+			return false
+		}
+		note := func(v ssa.Value, f func(o *ops)) {
+			if v == nil || !setLike(v) {
+				return
+			}
+			k := ls.setOf(v)
+			if k == nil {
+				return
+			}
+			if seen[k] == nil {
+				seen[k] = &ops{}
+				order = append(order, k)
+			}
+			f(seen[k])
+		}
+		for _, f := range ls.fns {
+			for _, b := range f.Blocks {
+				for _, ins := range b.Instrs {
+					if v, ok := memberTest(ins); ok {
+						note(v, func(o *ops) { o.test = true })
+					}
+					if v, ok := insertInto(ins); ok {
+						note(v, func(o *ops) { o.ins = true })
+					}
+					if v, ok := removeFrom(ins); ok {
+						note(v, func(o *ops) { o.rem = true })
+					}
+				}
+			}
+		}
+		for _, k := range order {
+			if o := seen[k]; o.test && o.ins && o.rem && ls.A == nil {
+				ls.A = k
+			}
+		}
+	}
 	// the per-file cache: the map field of the loader that is looked up
 	for _, f := range ls.fns {
 		for _, b := range f.Blocks {
@@ -1036,6 +1087,19 @@ func ruleLoaderCycle(c *Ctx) {
 					}
 					if bt != nil && name == "Range" && typeHasSuffix(bt, "ast.Include") {
 						hasRange = true
+					}
+				}
+			}
+			if !hasRange && cn.rng == nil {
+				// the variable was initialised as a whole (a literal copied into it) and only some fields are set
+				// afterwards: the range is the one of the copied value
+				if refs := base.Referrers(); refs != nil {
+					for _, r := range *refs {
+						if st, ok := r.(*ssa.Store); ok && st.Addr == base {
+							if isIncludeRangeSlice(sliceUp(ci, st.Val, f)) {
+								hasRange = true
+							}
+						}
 					}
 				}
 			}
